@@ -194,10 +194,10 @@ Lemma from_sparse_nth B N l b i j :
   (b < B)%nat -> (i < N)%nat -> (j < N)%nat ->
   nth j (nth i (nth b (from_sparse B N l) []) []) 0 = restored l i j b.
 Proof.
-  intros Hb Hi Hj. unfold from_sparse.
-  rewrite (nth_map_seq (fun b => map (fun i => map (fun j => restored l i j b) (seq 0 N)) (seq 0 N)) B b []) by exact Hb.
-  rewrite (nth_map_seq (fun i => map (fun j => restored l i j b) (seq 0 N)) N i []) by exact Hi.
-  apply nth_map_seq. exact Hj.
+  intros Hb Hi Hj. unfold from_sparse, mat.
+  rewrite (nth_map_seq (fun b => map (fun i => map (fun j => restored l i j b) (seq 0 N)) (seq 0 N)) B b [] Hb).
+  rewrite (nth_map_seq (fun i => map (fun j => restored l i j b) (seq 0 N)) N i [] Hi).
+  apply (nth_map_seq (fun j => restored l i j b)). exact Hj.
 Qed.
 
 (* to_file then from_file: every entry of every bin, for any number of patches *)
@@ -234,7 +234,7 @@ Lemma nth_add_nth k x acc i :
   (k < length acc)%nat -> nth i (add_nth k x acc) 0 == if Nat.eqb k i then nth i acc 0 + x else nth i acc 0.
 Proof.
   revert k i. induction acc as [|a acc IH]; intros k i Hk; simpl in Hk; [lia|].
-  destruct k as [|k]; destruct i as [|i]; simpl.
+  destruct k as [|k]; destruct i as [|i]; cbn [add_nth nth Nat.eqb].
   - apply Qred_correct.
   - reflexivity.
   - reflexivity.
@@ -344,19 +344,11 @@ Lemma qsum_seq_delta a (x : Q) s n :
   qsum (map (fun i => if Nat.eqb a i then x else 0) (seq s n))
   == if (s <=? a)%nat && (a <? s + n)%nat then x else 0.
 Proof.
-  revert s. induction n as [|n IH]; intros s; simpl.
-  - destruct (s <=? a)%nat eqn:E1; simpl; [|reflexivity].
-    destruct (a <? s + 0)%nat eqn:E2; [|reflexivity].
-    apply Nat.leb_le in E1. apply Nat.ltb_lt in E2. lia.
-  - rewrite IH. destruct (Nat.eqb_spec a s) as [->|Hne].
-    + rewrite Nat.leb_refl. simpl.
-      assert ((S s <=? s)%nat = false) as -> by (apply Nat.leb_gt; lia). simpl.
-      assert ((s <? s + S n)%nat = true) as -> by (apply Nat.ltb_lt; lia). ring.
-    + destruct (s <=? a)%nat eqn:E1; destruct (S s <=? a)%nat eqn:E2; simpl;
-        try (apply Nat.leb_le in E1); try (apply Nat.leb_gt in E1);
-        try (apply Nat.leb_le in E2); try (apply Nat.leb_gt in E2); try lia.
-      * replace (s + S n)%nat with (S s + n)%nat by lia. ring.
-      * ring.
+  revert s. induction n as [|n IH]; intros s; cbn [seq map qsum].
+  - destruct (Nat.leb_spec s a); destruct (Nat.ltb_spec a (s + 0)); cbn [andb]; try reflexivity; lia.
+  - rewrite IH.
+    destruct (Nat.eqb_spec a s); destruct (Nat.leb_spec (S s) a); destruct (Nat.ltb_spec a (S s + n));
+      destruct (Nat.leb_spec s a); destruct (Nat.ltb_spec a (s + S n)); cbn [andb]; try lia; ring.
 Qed.
 
 Lemma qsum_delta_in a (x : Q) N : (a < N)%nat -> qsum (map (fun i => if Nat.eqb a i then x else 0) (seq 0 N)) == x.
@@ -385,7 +377,7 @@ Proof.
     by (intros; apply sp_cell_sum).
   rewrite (qsum_swap (fun j e => if Nat.eqb (sp_i e) i then (if Nat.eqb (sp_j e) j then ev b e else 0) else 0)).
   rewrite qsum_filter. apply qsum_ext. intros e He.
-  rewrite Forall_forall in H. destruct (H e He) as [_ Hj].
+  unfold in_box in H. rewrite Forall_forall in H. destruct (H e He) as [_ Hj].
   destruct (Nat.eqb (sp_i e) i).
   - apply qsum_delta_in. exact Hj.
   - apply qsum_zero.
@@ -400,7 +392,7 @@ Proof.
   2:{ intros i _. rewrite (nth_map_seq (fun j0 => sp_cell b l i j0)) by exact Hj. apply sp_cell_sum. }
   rewrite (qsum_swap (fun i e => if Nat.eqb (sp_i e) i then (if Nat.eqb (sp_j e) j then ev b e else 0) else 0)).
   rewrite qsum_filter. apply qsum_ext. intros e He.
-  rewrite Forall_forall in H. destruct (H e He) as [Hi _].
+  unfold in_box in H. rewrite Forall_forall in H. destruct (H e He) as [Hi _].
   rewrite (qsum_delta_in (sp_i e) (if Nat.eqb (sp_j e) j then ev b e else 0) N Hi). reflexivity.
 Qed.
 
@@ -428,7 +420,7 @@ Proof.
              (fun i => qsum (map (fun e => if Nat.eqb (sp_i e) i then ev b e else 0) l)))
     by (intros; apply qsum_filter).
   rewrite (qsum_swap (fun i e => if Nat.eqb (sp_i e) i then ev b e else 0)).
-  apply qsum_ext. intros e He. rewrite Forall_forall in H. destruct (H e He) as [Hi _].
+  apply qsum_ext. intros e He. unfold in_box in H. rewrite Forall_forall in H. destruct (H e He) as [Hi _].
   apply qsum_delta_in. exact Hi.
 Qed.
 
@@ -471,10 +463,10 @@ Theorem big_den_is_dense auto u v :
        nth k (big_den_loo auto u v) 0 == sample (weights_array auto u v) k.
 Proof.
   intros Hauto. split.
-  - rewrite weights_total. unfold big_den. destruct auto; simpl.
+  - rewrite weights_total. unfold big_den, norm_denominator. destruct auto; cbv iota.
     + rewrite <- (Hauto eq_refl). rewrite upper_half_sum_sq, !qsumr_qsum. reflexivity.
     + rewrite !qsumr_qsum. reflexivity.
-  - intros k Hu Hv. rewrite weights_sample by assumption. unfold big_den_loo. destruct auto; simpl.
+  - intros k Hu Hv. rewrite weights_sample by assumption. unfold big_den_loo, norm_denominator. destruct auto; cbv iota zeta.
     + rewrite <- (Hauto eq_refl). rewrite nth_map_q by exact Hu. rewrite Qred_correct.
       rewrite upper_half_sum_sq. rewrite (qsum_without u k Hu). reflexivity.
     + rewrite nth_map2_q by assumption. rewrite Qred_correct.
